@@ -124,7 +124,7 @@ ObsEdit(t, e) ==
                                                           \/ (toks[j].ln <= e.le /\ last(toks[j]) > e.le)),
       nf |-> 1 + Cardinality({i \in 1..Len(code) : code[i].ln < e.ls}), nl |-> Cardinality({i \in 1..Len(code) : code[i].ln <= e.le}),
       cf |-> 1 + Cardinality({i \in 1..Len(cms) : cms[i].ln < e.ls}), cl |-> Cardinality({i \in 1..Len(cms) : cms[i].ln <= e.le}),
-      nt |-> o.nt, cm |-> o.cm, ld |-> o.ld]
+      nt |-> o.nt, cm |-> o.cm, ld |-> o.ld, ldx |-> o.ld]
 \* an edit re-lays-out exactly the lines it covers
 EditsConfined == pc = "apply" => EditsWhy(Observe(text), [i \in 1..Len(edits) |-> ObsEdit(text, edits[i])]) = {}
 \* wrapping keeps every source line, in order
